@@ -6,6 +6,8 @@ Recipe: {"dims","names","qkind", "ops":[...]} with ops
   {"k":"r",  "w":[i]}                                               reset
   {"k":"cg", "g":..., "w":[...], "conds":[cond,...]}                classically controlled unitary gate
   {"k":"ch", "g":[channel family, params], "w":[...]}               channel (only when channels=True)
+  {"k":"ch", "g":["Stored", {"via": "kraus_channel"|"user_kraus"|"user_mixture"|"mixed_unitary", "k": 2..4, "seed": int,
+                             "real": bool, "c64": bool}], "w":[...]}   (stored=True) channel given by stored arrays on any wires
 cond recipes
   {"t":"key","key":k,"index":i} | {"t":"eq","key":k,"val":v} | {"t":"gt","key":k,"val":v} |
   {"t":"bit","key":k,"bit":j} | {"t":"xor","key":k,"b0":i,"b1":j} |
@@ -24,6 +26,12 @@ from . import gates as G
 KEYS = ["a", "b", "c"]
 
 
+def GC_dumps(x):
+    import json
+
+    return json.dumps(x, sort_keys=True)
+
+
 def _stochastic(draw, n):
     rows = []
     for _ in range(n):
@@ -37,7 +45,7 @@ def _stochastic(draw, n):
 
 @st.composite
 def meas_circuit_recipes(draw, max_w=4, max_ops=10, qudits=False, clifford=False, channels=False, max_branches=64,
-                         conds=True, confusion=True, resets=True, qkinds=None, pauli_meas=True, ch_weight=1):
+                         conds=True, confusion=True, resets=True, qkinds=None, pauli_meas=True, ch_weight=1, stored=False):
     r = draw(GC.wires(1, max_w, qudits))
     if qkinds:
         r["qkind"] = draw(st.sampled_from(qkinds))
@@ -110,6 +118,23 @@ def meas_circuit_recipes(draw, max_w=4, max_ops=10, qudits=False, clifford=False
             ops.append({"k": "r", "w": [draw(st.integers(0, n - 1))]})
             continue
         if kind in ("g", "cg", "ch"):
+            if kind == "ch" and stored and draw(st.integers(0, 2)) == 0:
+                prev = [x for x in ops if x["k"] == "ch"]
+                if prev and draw(st.integers(0, 2)) == 0:
+                    # the SAME channel value again (the builder reuses one gate object for equal recipes), on any wires that fit
+                    src = draw(st.sampled_from(prev))
+                    dd = [dims[i] for i in src["w"]]
+                    fits = [list(c) for c in _arrangements(n, len(dd)) if [dims[i] for i in c] == dd]
+                    ops.append({"k": "ch", "g": src["g"], "w": draw(st.sampled_from(fits))})
+                    continue
+                k = draw(st.integers(1, min(2, n)))
+                w = list(draw(st.permutations(list(range(n)))))[:k]
+                via = draw(st.sampled_from(["kraus_channel", "user_kraus", "user_kraus", "user_mixture", "mixed_unitary"]))
+                if any(dims[i] != 2 for i in w) and via in ("kraus_channel", "mixed_unitary"):
+                    via = "user_kraus"  # cirq.KrausChannel / MixedUnitaryChannel are qubit-only
+                ops.append({"k": "ch", "w": w, "g": ["Stored", {"via": via, "k": draw(st.integers(2, 4)), "seed": draw(st.integers(0, 10 ** 6)),
+                                                             "real": draw(st.integers(0, 3)) == 0, "c64": draw(st.integers(0, 3)) == 0}]})
+                continue
             if kind == "ch":
                 o = draw(GC.op_on(dims, lambda f: f.channel and f.name != "Reset", 2))
                 if G.FAMILIES[o["g"][0]].channel:
@@ -131,6 +156,79 @@ def meas_circuit_recipes(draw, max_w=4, max_ops=10, qudits=False, clifford=False
                 ops.append({"k": "g", "g": o["g"], "w": o["w"]})
     r["ops"] = ops
     return r
+
+
+def _arrangements(n, k):
+    import itertools
+
+    return list(itertools.permutations(range(n), k))
+
+
+def stored_channel(params, shape):
+    """-> (gate, [Kraus operators as fresh complex128 copies]) for a ``Stored`` channel recipe on qids of ``shape``.
+
+    The operators are blocks of the first d columns of a pseudo-random (dk x dk) unitary, a pure function of the drawn
+    integer seed: sum_i K_i^dagger K_i = 1.  ``user_*`` are harness-defined gates implementing the documented ``_kraus_`` /
+    ``_mixture_`` protocols with STORED arrays (returned by reference, like cirq.KrausChannel does)."""
+    import cirq
+
+    d = int(np.prod(shape))
+    k = int(params.get("k", 2))
+    rs = np.random.RandomState(int(params.get("seed", 0)) % (2 ** 31))
+    dt = np.complex64 if params.get("c64") else np.complex128
+    via = params.get("via", "user_kraus")
+    if via in ("user_mixture", "mixed_unitary"):
+        w = rs.rand(k) + 0.05
+        w = w / w.sum()
+        us = []
+        for _ in range(k):
+            m = rs.randn(d, d) + (0 if params.get("real") else 1j) * rs.randn(d, d)
+            q, _r = np.linalg.qr(m)
+            us.append(np.ascontiguousarray(q).astype(dt))
+        ref = [np.sqrt(wi) * np.array(u, dtype=np.complex128) for wi, u in zip(w, us)]
+        if via == "mixed_unitary":
+            return cirq.MixedUnitaryChannel([(float(wi), u) for wi, u in zip(w, us)]), ref
+        return _user_gate()(tuple(shape), mixture=tuple((float(wi), u) for wi, u in zip(w, us))), ref
+    m = rs.randn(d * k, d * k) + (0 if params.get("real") else 1j) * rs.randn(d * k, d * k)
+    q, _r = np.linalg.qr(m)
+    ks = [np.ascontiguousarray(q[i * d:(i + 1) * d, :d]).astype(dt) for i in range(k)]
+    ref = [np.array(x, dtype=np.complex128) for x in ks]
+    if via == "kraus_channel":
+        return cirq.KrausChannel(ks), ref
+    return _user_gate()(tuple(shape), kraus=tuple(ks)), ref
+
+
+_USER_GATE = None
+
+
+def _user_gate():
+    global _USER_GATE
+    if _USER_GATE is None:
+        import cirq
+
+        class VfStoredChannel(cirq.Gate):
+            """Harness-defined channel (documented extension points _qid_shape_ + _kraus_ / _mixture_)."""
+
+            def __init__(self, shape, kraus=None, mixture=None):
+                self._shape, self._ks, self._mix = shape, kraus, mixture
+
+            def _qid_shape_(self):
+                return self._shape
+
+            def _kraus_(self):
+                return self._ks if self._ks is not None else NotImplemented
+
+            def _mixture_(self):
+                return self._mix if self._mix is not None else NotImplemented
+
+            def _has_mixture_(self):
+                return self._mix is not None
+
+            def __repr__(self):
+                return f"VfStoredChannel(shape={self._shape}, {'kraus' if self._ks is not None else 'mixture'})"
+
+        _USER_GATE = VfStoredChannel
+    return _USER_GATE
 
 
 @st.composite
@@ -255,6 +353,7 @@ def build(recipe, order=None, strategy=None):
     _app = (lambda x: c.append(x)) if strategy is None else (lambda x: c.append(x, strategy=strategy))
     ir = []
     key_dims = {}
+    chan_cache = {}
     for o in recipe["ops"]:
         k = o["k"]
         wq = [qs[i] for i in o["w"]]
@@ -284,9 +383,18 @@ def build(recipe, order=None, strategy=None):
             if twice:
                 ir.append(base)
         elif k == "ch":
-            gate = G.build_gate(o["g"])
+            # equal channel recipes share ONE gate object within a circuit (a value used twice); the reference keeps its own
+            # copies of the operators taken when the gate was made
+            ck = GC_dumps(o["g"]) + "|" + str([recipe["dims"][i] for i in o["w"]])
+            if ck not in chan_cache:
+                if o["g"][0] == "Stored":
+                    chan_cache[ck] = stored_channel(o["g"][1], [recipe["dims"][i] for i in o["w"]])
+                else:
+                    gate = G.build_gate(o["g"])
+                    chan_cache[ck] = (gate, [np.array(x, dtype=np.complex128) for x in cirq.kraus(gate)])
+            gate, ks = chan_cache[ck]
             _app(gate.on(*wq))
-            ir.append({"t": "k", "ks": list(cirq.kraus(gate)), "ax": ax})
+            ir.append({"t": "k", "ks": [x.copy() for x in ks], "ax": ax})
         elif k == "r":
             _app(cirq.ResetChannel(dimension=recipe["dims"][o["w"][0]]).on(*wq))
             ir.append({"t": "reset", "ax": ax})
